@@ -15,7 +15,13 @@ type(obj) is compared with the creating class at the moment the object is first 
 attributes; every polymorphic read over entity E must return exactly the model's instances of E; isinstance(x, C)
 / isinstance(x, (C1, C2)) in generator, lambda and string queries must agree with Python isinstance on the model.
 
-Findings are classified by mechanism (never by data): see F_* below.
+Findings are classified by mechanism (never by data), F_* below:
+  F_SEED     pk-only seed carries the declared class of the relationship (type/isinstance, lost assignment, Sub[pk])
+  F_ISREF    isinstance(x.ref, C) tests the discriminator of x's own row       (deviation rule re-evaluated)
+  F_ISNONE   isinstance(x.ref, DeclaredType) is 1 = 1, true for None           (deviation rule re-evaluated)
+  F_UNPICKLE pk-only object recreated by unpickling is dropped from cache.seeds and never refined by navigation
+  F_DIAMOND  loud: 'Unexpected class change from B to C' for a D(B, C) object referenced through both branches
+  F_SQLATTR  loud: IndexError in select_by_sql when a subclass has a column-less one-to-one attribute
 """
 import os, sys, json, pickle, itertools
 
@@ -45,8 +51,20 @@ META = {
         'over objects that have the attribute; for `is None` tests objects lacking the attribute are bracketed.',
         'An explicit discriminator value passed to the constructor (A(kind=<value of B>)) is bracketed: the object may '
         'reload as the creating class or as the class designated by the value.',
-        'Loud errors are counted, not judged (e.g. NotImplementedError when a written-to seed is refined, '
-        'OperationalError for isinstance() on a many-to-many loop variable).',
+        'Loud errors of valid calls are counted, not judged (NotImplementedError when a written-to seed is refined, '
+        'OperationalError for isinstance() on a many-to-many loop variable or on a reference whose owner table has no '
+        'discriminator column, AttributeError for a sibling-branch attribute in a query); two loud INTERNAL errors whose '
+        'mechanism the monitor identifies (F_DIAMOND, F_SQLATTR) are reported as findings; any other exception from a '
+        'read path is a violation.',
+        'F_SEED is accepted only on paths where pony hands out pk-only seeds without loading them (iteration / copy / '
+        'prefetch of a many-to-many collection, lookups in a session that already holds such a seed) and only if the '
+        'class is right after obj.load(); a wrongly typed seed or loaded object anywhere else is a violation.',
+        '`not isinstance(x.ref, C)` with x.ref None is bracketed (Python True, SQL unknown).',
+        'References inside one hierarchy (parent / children) are generated acyclic: Query.prefetch() of a one-to-many '
+        'self reference does not terminate on a reference cycle reached through a many-to-many link (pony defect '
+        'outside C27, reported to the lead) and would only trip the watchdog.',
+        'Objects of a diamond class referenced through attributes typed by two unrelated branches (the F_DIAMOND '
+        'situation) are generated only in every fourth diagram, so that the other monitors keep their power.',
     ],
     'shims': [],
     'exhaustive_tiers': [],
